@@ -6,7 +6,7 @@
      hcase : translation validation of a whole generated control stream (verdict_hist)
    Correspondence tags < 10, oracle tags 11..99, guard facts >= 200, inconclusive >= 1000. *)
 From Coq Require Import QArith List Bool PArith Arith.
-From PV Require Import Base.PyData Base.Expr Base.Interp Base.Stmts C02.Model C02.CondPrint C02.Spec C02.Remap C02.IndexDiff C02.Read.
+From PV Require Import Base.PyData Base.Expr Base.Interp Base.Stmts C02.Model C02.CondPrint C02.Spec C02.Remap C02.IndexDiff C02.Read C02.KRename.
 Import ListNotations.
 Local Open Scope nat_scope.
 
@@ -401,3 +401,27 @@ Definition verdict_isd (c : icase) : list nat :=
                     list_eqb Nat.eqb (old_side es) (old_of (i_script c))) 16
   | None => if wf then [19] else []
   end ++ tag wf 209.
+
+(* ================= stream 7: the ADVAN5/7 renaming loop of pk_param_conversion =============== *)
+Record kcase := mkK {
+  k_n : nat;                                   (* len(oldmap), OUTPUT included *)
+  k_remap : list (nat * nat); k_ncs : nat;
+  k_flows : list (nat * nat);                  (* pairs of NEW compartment numbers with a non-zero flow *)
+  k_advan3 : bool;
+  k_obs : option (list (kkey * kval))          (* entries of d in insertion order (T-spelling); None = raised *)
+}.
+Definition kval_eqb (a b : kval) : bool :=
+  match a, b with
+  | Some x, Some y => Nat.eqb (fst x) (fst y) && Nat.eqb (snd x) (snd y)
+  | None, None => true | _, _ => false end.
+Definition kentry_eqb (a b : kkey * kval) : bool := kkey_eqb (fst a) (fst b) && kval_eqb (snd a) (snd b).
+Definition verdict_krename (c : kcase) : list nat :=
+  let flow := fun a b => existsb (fun p => Nat.eqb (fst p) a && Nat.eqb (snd p) b) (k_flows c) in
+  let m := k_rename (k_n c) (k_remap c) (k_ncs c) flow (k_advan3 c) in
+  match k_obs c with
+  | Some o => tag (list_eqb kentry_eqb m o) 8 ++
+              tag (forallb (fun e => match snd e with
+                                     | Some _ => entry_ok (k_remap c) (k_ncs c) flow (fst e) (snd e)
+                                     | None => k_advan3 c end) o) 20
+  | None => [8]
+  end.
